@@ -7,7 +7,7 @@ RULE = ('python-random histories under a system-bus-like policy (only requested 
         'calls, genuine / duplicate / wrong-serial / third-party / late replies, serial reuse, NO_REPLY calls, callee and caller '
         'disconnects in the same round as the reply, per-connection pending-reply limit 2-3; every 3rd scenario runs with a '
         'finite reply_timeout and a train of keep-alive calls so that old slots must expire while newer ones are pending; '
-        'every sixth scenario: one caller with the same serial outstanding towards two or three callees that answer in any order (plus duplicates); '
+        'every sixth scenario: one caller with the same serial outstanding towards two or three callees that answer in any order (plus duplicates), with small serials and serials whose top bit is set; '
         'distinct = distinct scenario texts')
 W = {'req': 1.2, 'rel': 0.4, 'query': 0.2, 'addmatch': 0.3, 'rmmatch': 0.1, 'signal': 0.4, 'call': 6, 'reply': 6,
      'usignal': 0.5, 'close': 0.6, 'driver_other': 0.2, 'nodest': 0.1}
@@ -36,7 +36,7 @@ def shared_serial(rng):
     for s, n in names.items():
         rounds.append({'ops': {str(s): [{'k': 'connect', 'uid': 0}, {'k': 'hello'}, {'k': 'req', 'n': n, 'f': 0}]}})
     callees = rng.sample([2, 3, 4], rng.choice([2, 3]))
-    ser = rng.choice([7, 1001])
+    ser = rng.choice([7, 1001, 0x7fffffff, 0x80000001, 0xfffffff0])       # (serials are unsigned: the top bit means nothing)
     calls = [{'k': 'send', 'ty': 1, 'dst': names[c], 'path': '/a', 'ifc': 'com.example.I', 'mem': 'Ma', 'sig': 'u', 'body': [c],
               'ser': ser, 'fl': 0} for c in callees]
     if rng.random() < 0.5:
@@ -51,6 +51,9 @@ def shared_serial(rng):
         if rng.random() < 0.3:
             ops.append(dict(ops[0]))            # a duplicate: must be refused
         rounds.append({'ops': {str(c): ops}})
+    # an unsolicited reply that names a serial nobody used, small or with the top bit set: refused like any other
+    rounds.append({'ops': {str(rng.choice([2, 3, 4])): [{'k': 'send', 'ty': rng.choice([2, 3]), 'dst': {'slot': 1}, 'err': 'com.example.Err',
+                                                         'rs': rng.choice([5, 0x80000005, 0xffffffff]), 'sig': 's', 'body': ['unasked']}]}})
     # anybody answering again, or a stranger answering, is refused
     rounds.append({'ops': {str(rng.choice([2, 3, 4])): [{'k': 'send', 'ty': 2, 'dst': {'slot': 1}, 'rs': ser, 'sig': 's', 'body': ['late']}]}})
     for r in rounds:
